@@ -1167,7 +1167,9 @@ fn handle(g: &mut Global, req: &Request, t_recv: u64) -> Exchange {
                                 ca.authzs[ai].polls_after_post += 1;
                             }
                             extra["authz"] = json!({"id": ai, "identifier": ca.authzs[ai].identifier_value, "wildcard": ca.authzs[ai].wildcard,
-                                "status": ca.authzs[ai].status, "order": ca.authzs[ai].order});
+                                "identifier_type": ca.authzs[ai].identifier_type,
+                                "status": ca.authzs[ai].status, "order": ca.authzs[ai].order,
+                                "challenges": ca.authzs[ai].challenges.iter().map(|c| json!({"type": c.ty, "token": c.token, "status": c.status})).collect::<Vec<Value>>()});
                             json_resp(200, &authz_json(ca, ai, &base))
                         }
                     }
